@@ -1,6 +1,7 @@
 //! mlv — correspondence harness between the Coq model (/verif/coq) and the crate in /repo.
 mod c03;
 mod c05n;
+mod c06;
 mod c02;
 mod c07;
 mod c13;
@@ -171,6 +172,10 @@ fn main() {
         "c20" | "c06" => {
             let o = c20::generate(seed, scale, cmd);
             o.write(&out, cmd, "From MLV Require Import model.Bytes model.Cache model.Check20.", "c20case", "run20", shards);
+        }
+        "c06calls" => {
+            let o = c06::generate(seed, scale);
+            o.write(&out, "c06calls", "From MLV Require Import model.Bytes model.PutQuery model.Calls model.Check06.", "c06case", "run06", shards);
         }
         "c16" => {
             let o = c16::generate(seed, scale);
